@@ -309,7 +309,7 @@ def run_harness(unit, h, src_c, workdir, label_by_line, mode='proof', solver=Non
     cn = (prof_cls.CLS + '_' if prof_cls.CLS else '')
     name = h['name'] + ('' if mode == 'proof' else '.bounded')
     base = os.path.join(workdir, name)
-    entry = 'h_' + h['name']
+    entry = 'h_' + h.get('entry_name', h['name'])      # second-backend runs use another file tag, same harness
     defs = ['-DVERIF'] + ([] if h.get('lemma') else ['-DENFORCING_' + h['fn']]) + ['-D' + f for f in h.get('flags', [])]
     if mode == 'bounded':
         defs += ['-DBL_BOUNDED'] + ['-D' + d for d in h.get('bounded_defs', ['NMAX=2'])]
